@@ -223,13 +223,22 @@ def build():
                      "shape's own content-derived id (assumed extra ensures of _describe_object_type inside _describe_object_shape)")
     LENS = ['len(element_names) == len(subtypes)', 'len(link_props) == len(subtypes)', 'len(links) == len(subtypes)', 'len(cardinalities) == len(subtypes)', 'len(sources) == len(subtypes)']
     SLOOP = WF + [MONO, PVSAME, GROW, SUBS] + LENS
-    w.contract(SER, '_describe_object_shape', params={'t': 'Obj', 'ctx': 'Ctx'}, returns='Obj', requires=WF, modifies=CTXMOD, ensures=DT_ENS + [PVSAME],
+    # faithfulness of the element cardinalities (encoder side): the cardinality recorded for the j-th emitted element is that of the j-th emitted SHAPE pointer
+    # (the view's pointer, not the schema pointer it was derived from); ghost `gp` = the pointers emitted so far
+    w.ufunc('CARD', ['Obj'], 'Cardinality')
+    w.ext_funcs['cardinality_from_ptr'] = dict(params={'ptr': 'Obj', 'schema': 'Obj'}, returns='Cardinality', returns_expr='CARD(ptr)')
+    w.trusted.append('cardinality_from_ptr(ptr, schema) is a function of the pointer (CARD); deriving material types does not change it')
+    CARDS = ['len(gp) == len(cardinalities)', 'forall(0, len(cardinalities), lambda j: cardinalities[j] == CARD(gp[j]))']
+    w.contract(SER, '_describe_object_shape', params={'t': 'Obj', 'ctx': 'Ctx'}, ghost={'gp': 'Seq[Obj]'}, returns='Obj', requires=WF + ['len(gp) == 0'], modifies=CTXMOD,
+               ensures=DT_ENS + [PVSAME] + CARDS,
                raises={'AssertionError': {}, 'InternalServerError': {}},
-               loops={0: dict(fingerprint='for ptr in ctx.view_shapes.get(t, ())', index='i', invariant=SLOOP),
-                      1: dict(fingerprint='for ptr in rptr_ptrs', index='i', invariant=SLOOP),
+               ghost_after={'cardinalities.append(cardinality_from_ptr(ptr, ctx.schema))': [('gp', 'gp + [ptr]')]},
+               loops={0: dict(fingerprint='for ptr in ctx.view_shapes.get(t, ())', index='i', invariant=SLOOP + CARDS),
+                      1: dict(fingerprint='for ptr in rptr_ptrs', index='i', invariant=SLOOP + CARDS),
                       2: dict(fingerprint='for (el_name, el_type_id, el_lp, el_l, el_c, el_src) in zip(element_names, subtypes, link_props, links, cardinalities, sources)',
                               index='i', invariant=WF + [MONO, PVSAME, GROW, SUBS, 'not (type_id in ctx.uuid_to_pos)'])},
                hints=dict(var_types=dict(VT, element_names='Seq[str]', link_props='Seq[bool]', links='Seq[bool]', cardinalities='Seq[Cardinality]', sources='Seq[Obj]'),
+                          ghost_out=['gp'],
                           ext_funcs={'_describe_object_type': wf_override('type_id', 'type_id')['_describe_object_type']}))
     return w
 
@@ -393,6 +402,6 @@ def scenarios(tier, seed, repo_root, outdir):
     p = subprocess.run(['/venv/bin/python', os.path.join(here, 'scenario.py'), str(seed), str(n), out], capture_output=True, text=True, env=env, cwd=repo_root, timeout=3000)
     if not os.path.exists(out): raise RuntimeError('scenario runner failed: ' + (p.stderr or p.stdout)[-2000:])
     r = json.load(open(out))
-    return dict(evaluations=r['types'] + r['params'] + r.get('shapes', 0) + r.get('namelists', 0), failure=r['failure'],
-                label='%d random type trees, %d parameter lists, %d object shapes described and parsed back for protocols 1.0/2.0/3.0; %d name lists for the id pre-image (bounded)' % (r['types'], r['params'], r.get('shapes', 0), r.get('namelists', 0)),
+    return dict(evaluations=r['types'] + r['params'] + r.get('shapes', 0) + r.get('namelists', 0) + r.get('shape_ids', 0), failure=r['failure'],
+                label='%d random type trees, %d parameter lists, %d object shapes described and parsed back for protocols 1.0/2.0/3.0; %d name lists and %d argument tuples of _get_object_shape_id for the id pre-image (bounded)' % (r['types'], r['params'], r.get('shapes', 0), r.get('namelists', 0), r.get('shape_ids', 0)),
                 clause='decoded structure equals described structure; equal ids => identical bytes; different structure => different ids; no duplicate ids in a stream')
